@@ -176,6 +176,18 @@ def normalizeIndex (idx : List Ix) (shape : List Int) : Except Err (List Ix) :=
       | .error e => .error e
       | .ok al' => .ok (al'.map posifyItem)
 
+/-- SPEC vocabulary: `idx` is in the normal form `normalize_index` promises for `shape`:
+item by item against the axes, integers in `[0, d)`, slices in the image of `normalize_slice`
+(for the axis length), list entries in `[0, d)`, no `Ellipsis`. -/
+def NormalFor : List Ix → List Int → Prop
+  | [], _ => True
+  | .none_ :: rest, shape => NormalFor rest shape
+  | .ellipsis :: _, _ => False
+  | _ :: _, [] => False
+  | .int i :: rest, d :: shape => (0 ≤ i ∧ i < d) ∧ NormalFor rest shape
+  | .slc s :: rest, d :: shape => (∃ s0 : PySlice, s0.stp ≠ 0 ∧ s = normalizeSlice s0 d) ∧ NormalFor rest shape
+  | .lst l :: rest, d :: shape => (∀ i ∈ l, 0 ≤ i ∧ i < d) ∧ NormalFor rest shape
+
 /-! ### n-D lifting of the per-axis plan: `SliceSlicesIntegers` -/
 
 /-- `itertools.product(*ls)` (C order: last factor fastest). -/
@@ -259,6 +271,38 @@ def outChunks : List (List Int) → List Ix → List (List Int)
   | _ :: cs, .int _ :: is => outChunks cs is
   | _, _ => []
 
+/-! ### what the n-D block plan reads (SPEC vocabulary for `getitem_basic_blocks`) -/
+
+/-- Global positions read on one axis, one list per output block, in output-block order
+(`orderedPlan`: ascending input block for a positive step, descending for a negative one — the
+numbering of `out_names` in `_layer`); an integer axis is a single block reading one position. -/
+def axisPieces (lengths : List Int) : Ix → List (List Int)
+  | .slc s =>
+    (orderedPlan s.stp (slice1d (isum lengths) lengths s)).map
+      (fun p => (sel p.2 (lengths.getD p.1 0)).map (· + blockStart lengths p.1))
+  | .int i => let r := slice1dInt lengths i; [[blockStart lengths r.1 + r.2]]
+  | _ => []
+
+/-- all input multi-positions read by the grid of output blocks: block by block (C order of
+the block grid), inside a block in C order. -/
+def gridReads (chunks : List (List Int)) (index : List Ix) : List (List Int) :=
+  (cart (List.zipWith axisPieces chunks index)).flatMap cart
+
+/-- the advertised chunks of every sliced axis (`new_blockdim`, i.e. `ssiChunks`) agree with the
+pieces the plan reads: they sum to the number of selected positions and, when the selection is
+non-empty, they are the piece lengths in output-block order.  (For an empty selection
+`new_blockdim` advertises the single chunk `(0,)` while `_slice_1d`'s `x[:0]` special case
+reads one empty piece of block 0 — lengths agree there as well, but not via `planLengths` of a
+general plan, so the statement keeps the two parts separate.) -/
+def ChunksAgree : List (List Int) → List Ix → Prop
+  | lengths :: cs, .slc s :: is =>
+    (isum (newBlockdim (isum lengths) lengths s) = (((axisPieces lengths (.slc s)).flatten.length : Nat) : Int) ∧
+      ((axisPieces lengths (.slc s)).flatten ≠ [] →
+        newBlockdim (isum lengths) lengths s = (axisPieces lengths (.slc s)).map (fun q => (q.length : Int)))) ∧
+    ChunksAgree cs is
+  | _ :: cs, _ :: is => ChunksAgree cs is
+  | _, _ => True
+
 /-! ### `.blocks[idx]` -/
 
 /-- NumPy `a[s]` positions for one normalised `.blocks` item on an axis of `n` blocks
@@ -267,6 +311,15 @@ def blockSel (n : Int) : Ix → List Int
   | .slc s => sel s n
   | .lst l => l
   | _ => []
+
+/-- `slice(k, k + 1) if isinstance(k, Number) else k`: integers keep their axis. -/
+def keepDim : Ix → Ix
+  | .int k => .slc ⟨some k, some (k + 1), none⟩
+  | x => x
+
+/-- SPEC vocabulary: the global positions of block `b` of an axis chunked as `lengths`. -/
+def blockRange (lengths : List Int) (b : Int) : List Int :=
+  rangeList (blockStart lengths b.toNat) (blockStart lengths (b.toNat + 1)) 1
 
 /-- `blocks_getitem` + `Blocks.chunks` + the `index_maps` of `Blocks._layer`:
 `(chunks of the result, selected input block per output block and axis)`. -/
@@ -278,9 +331,7 @@ def blocksIndex (chunks : List (List Int)) (idx : List Ix) :
     match normalizeIndex idx (chunks.map (fun c => (c.length : Int))) with
     | .error e => .error e
     | .ok index =>
-      let index := index.map (fun k => match k with
-        | .int k => Ix.slc ⟨some k, some (k + 1), none⟩
-        | x => x)
+      let index := index.map keepDim
       let maps := List.zipWith (fun c i => blockSel (c.length : Int) i) chunks index
       .ok (List.zipWith (fun c m => m.map (fun b => c.getD b.toNat 0)) chunks maps, maps)
 
@@ -332,8 +383,10 @@ def shuffleIsIdentity (indexer : List (List Int)) (chunks : List Int) : Bool :=
   indexer.length = chunks.length && shuffleIsIdentityLoop indexer chunks 0
 
 /-- chunks of `take(x, index, axis)` on the take axis: `tuple(map(len, _new_chunks))`, or the
-input chunks when `_shuffle` recognises the identity. -/
+input chunks when `take` / `_shuffle` recognise the identity. -/
 def takeChunks (index : List Int) (chunksAlongAxis : List Int) : List Int :=
+  -- `take`: `take(x, arange(n))` over the full axis returns `x` unchanged
+  if index = rangeList 0 (isum chunksAlongAxis) 1 then chunksAlongAxis else
   let indexer := computeIndexer index chunksAlongAxis
   if shuffleIsIdentity indexer chunksAlongAxis then chunksAlongAxis
   else
